@@ -560,6 +560,275 @@ func writeIfChanged(path string, content string) {
 	}
 }
 
+// ---------------------------------------------------------------- T3
+
+func identsOf(n ast.Node) []string {
+	var out []string
+	ast.Inspect(n, func(x ast.Node) bool {
+		switch v := x.(type) {
+		case *ast.Ident:
+			out = append(out, v.Name)
+		case *ast.SelectorExpr:
+			// x.Sel is a field/method name, not a variable
+			ast.Inspect(v.X, func(y ast.Node) bool {
+				if id, ok := y.(*ast.Ident); ok {
+					out = append(out, id.Name)
+				}
+				return true
+			})
+			return false
+		}
+		return true
+	})
+	return out
+}
+
+type cliOpt struct {
+	varName, name string
+	positional  bool
+}
+
+// cliCommand analyses one command function: its declared options, the payload
+// handed to encodePayload and the def-use closure from the payload.
+func cliCommand(fd *ast.FuncDecl) (opts []cliOpt, keyed map[string]bool, hasCache bool) {
+	deps := map[string]map[string]bool{}
+	addDep := func(lhs string, from []string) {
+		if deps[lhs] == nil {
+			deps[lhs] = map[string]bool{}
+		}
+		for _, f := range from {
+			deps[lhs][f] = true
+		}
+	}
+	var payload []string
+	var walk func(n ast.Node, ctl []string)
+	walk = func(n ast.Node, ctl []string) {
+		switch v := n.(type) {
+		case *ast.BlockStmt:
+			for _, s := range v.List {
+				walk(s, ctl)
+			}
+		case *ast.IfStmt:
+			c := append(append([]string(nil), ctl...), identsOf(v.Cond)...)
+			if v.Init != nil {
+				walk(v.Init, ctl)
+				c = append(c, identsOf(v.Init)...)
+			}
+			walk(v.Body, c)
+			if v.Else != nil {
+				walk(v.Else, c)
+			}
+		case *ast.ForStmt:
+			walk(v.Body, ctl)
+		case *ast.RangeStmt:
+			c := append(append([]string(nil), ctl...), identsOf(v.X)...)
+			for _, e := range []ast.Expr{v.Key, v.Value} {
+				if id, ok := e.(*ast.Ident); ok {
+					addDep(id.Name, identsOf(v.X))
+				}
+			}
+			walk(v.Body, c)
+		case *ast.SwitchStmt:
+			c := append([]string(nil), ctl...)
+			if v.Tag != nil {
+				c = append(c, identsOf(v.Tag)...)
+			}
+			for _, cc := range v.Body.List {
+				cl := cc.(*ast.CaseClause)
+				c2 := append([]string(nil), c...)
+				for _, e := range cl.List {
+					c2 = append(c2, identsOf(e)...)
+				}
+				for _, s := range cl.Body {
+					walk(s, c2)
+				}
+			}
+		case *ast.AssignStmt:
+			var rhs []string
+			for _, r := range v.Rhs {
+				rhs = append(rhs, identsOf(r)...)
+			}
+			for _, l := range v.Lhs {
+				for _, name := range identsOf(l) {
+					addDep(name, rhs)
+					addDep(name, ctl)
+				}
+			}
+			// option declarations
+			if len(v.Lhs) == 1 && len(v.Rhs) == 1 {
+				if call, ok := v.Rhs[0].(*ast.CallExpr); ok {
+					if sel, ok := call.Fun.(*ast.SelectorExpr); ok {
+						if recv, ok := sel.X.(*ast.Ident); ok && (recv.Name == "opt" || recv.Name == "pos") {
+							if lhs, ok := v.Lhs[0].(*ast.Ident); ok {
+								idx := 1
+								if recv.Name == "pos" {
+									idx = 0
+								}
+								if idx < len(call.Args) {
+									if name, ok := strLit(call.Args[idx]); ok {
+										opts = append(opts, cliOpt{lhs.Name, name, recv.Name == "pos"})
+									}
+								}
+							}
+						}
+					}
+				}
+			}
+		case *ast.DeclStmt, *ast.ExprStmt, *ast.ReturnStmt, *ast.DeferStmt, *ast.IncDecStmt, *ast.BranchStmt:
+		case *ast.LabeledStmt:
+			walk(v.Stmt, ctl)
+		}
+	}
+	walk(fd.Body, nil)
+	// digests of secondary inputs are accumulated by side effect in hash
+	// objects: every variable derived from newHash() (and the readers wrapped
+	// around it) depends on whatever is passed in a call together with it
+	taint := map[string]bool{}
+	ast.Inspect(fd.Body, func(n ast.Node) bool {
+		as, ok := n.(*ast.AssignStmt)
+		if !ok || len(as.Rhs) != 1 {
+			return true
+		}
+		if call, ok := as.Rhs[0].(*ast.CallExpr); ok {
+			if id, ok := call.Fun.(*ast.Ident); ok && id.Name == "newHash" {
+				for _, l := range as.Lhs {
+					for _, name := range identsOf(l) {
+						taint[name] = true
+					}
+				}
+			}
+		}
+		return true
+	})
+	for changed := true; changed; {
+		changed = false
+		ast.Inspect(fd.Body, func(n ast.Node) bool {
+			as, ok := n.(*ast.AssignStmt)
+			if !ok {
+				return true
+			}
+			uses := false
+			for _, r := range as.Rhs {
+				for _, name := range identsOf(r) {
+					if taint[name] {
+						uses = true
+					}
+				}
+			}
+			if uses {
+				for _, l := range as.Lhs {
+					for _, name := range identsOf(l) {
+						if name != "err" && name != "_" && name != "ok" && !taint[name] {
+							taint[name] = true
+							changed = true
+						}
+					}
+				}
+			}
+			return true
+		})
+	}
+	ast.Inspect(fd.Body, func(n ast.Node) bool {
+		call, ok := n.(*ast.CallExpr)
+		if !ok {
+			return true
+		}
+		all := identsOf(call)
+		for _, name := range all {
+			if taint[name] {
+				addDep(name, all)
+			}
+		}
+		return true
+	})
+	ast.Inspect(fd.Body, func(n ast.Node) bool {
+		call, ok := n.(*ast.CallExpr)
+		if !ok {
+			return true
+		}
+		if id, ok := call.Fun.(*ast.Ident); ok && id.Name == "encodePayload" {
+			payload = append(payload, identsOf(call)...)
+		}
+		if sel, ok := call.Fun.(*ast.SelectorExpr); ok && sel.Sel.Name == "TryCache" {
+			hasCache = true
+			// the payload variable flows in through the second argument
+			payload = append(payload, identsOf(call)...)
+		}
+		return true
+	})
+	keyed = map[string]bool{}
+	var visit func(v string)
+	visit = func(v string) {
+		if keyed[v] {
+			return
+		}
+		keyed[v] = true
+		for d := range deps[v] {
+			visit(d)
+		}
+	}
+	for _, p := range payload {
+		visit(p)
+	}
+	return
+}
+
+func cliTable(dir string) string {
+	entries, err := os.ReadDir(dir)
+	if err != nil {
+		die("read %s: %v", dir, err)
+	}
+	var rows []string
+	for _, e := range entries {
+		if !strings.HasSuffix(e.Name(), ".go") || strings.HasSuffix(e.Name(), "_test.go") {
+			continue
+		}
+		pf := load(dir, e.Name())
+		f := pf.files[e.Name()]
+		// command names registered in init(): flags.Register("name", desc, fn)
+		reg := map[string]string{}
+		ast.Inspect(f, func(n ast.Node) bool {
+			call, ok := n.(*ast.CallExpr)
+			if !ok || len(call.Args) != 3 {
+				return true
+			}
+			if sel, ok := call.Fun.(*ast.SelectorExpr); ok && sel.Sel.Name == "Register" {
+				if name, ok := strLit(call.Args[0]); ok {
+					if fn, ok := call.Args[2].(*ast.Ident); ok {
+						reg[fn.Name] = name
+					}
+				}
+			}
+			return true
+		})
+		for _, d := range f.Decls {
+			fd, ok := d.(*ast.FuncDecl)
+			if !ok || fd.Body == nil {
+				continue
+			}
+			name, ok := reg[fd.Name.Name]
+			if !ok {
+				continue
+			}
+			opts, keyed, hasCache := cliCommand(fd)
+			if !hasCache {
+				continue
+			}
+			var os_ []string
+			for _, o := range opts {
+				neutral := o.name == "no-cache" || o.name == "output" || o.name == "seqin"
+				// the primary input is hashed as the root digest; for insert/infix the
+				// primary input is the positional read through the io delegate
+				os_ = append(os_, fmt.Sprintf("(%s, %v, %v)", coqBytes(o.name), keyed[o.varName], neutral))
+			}
+			rows = append(rows, fmt.Sprintf("(%s,\n    [%s])", coqBytes(name), strings.Join(os_, ";\n     ")))
+		}
+	}
+	sort.Strings(rows)
+	return "(* per cached subcommand: (option name, reaches the cache payload, neutral) *)\n" +
+		"Definition cli_table : list (list byte * list (list byte * bool * bool)) :=\n  [" + strings.Join(rows, ";\n   ") + "].\n"
+}
+
 type fnSpec struct {
 	dir, file, name string
 	nparams         int
@@ -636,6 +905,16 @@ func main() {
 			}))
 		}
 		writeIfChanged(filepath.Join(out, "Tables.v"), b.String())
+	}
+
+	// ---- T3: CLI option tables and cache payloads
+	{
+		var b strings.Builder
+		b.WriteString(header)
+		b.WriteString(section("Cli.table", "Definition cli_table : list (list byte * list (list byte * bool * bool)) := [].", func() string {
+			return cliTable(filepath.Join(repo, "cmd", "gts"))
+		}))
+		writeIfChanged(filepath.Join(out, "Cli.v"), b.String())
 	}
 
 	keys := make([]string, 0, len(status))
